@@ -47,7 +47,8 @@ EXPECTED_PROBES = ["fault_before_first_attr", "fault_in_write_skip_metadata",
                    "genuine_unpicklable_attribute", "second_fault_in_history", "old_object_survived",
                    "target_absent_after", "target_unreadable_after",
                    "write_once_refused", "stragglers_at_raise", "recovery_save_ok",
-                   "hardlinked_foreign_file", "hardlinked_snapshot_of_saved_object"]
+                   "hardlinked_foreign_file", "hardlinked_snapshot_of_saved_object",
+                   "target_is_symlink_to_object"]
 # thorough tier only: "sweep_exhaustive" / "sweep_strided" count how many workloads were swept over
 # EVERY fault position and how many (more than 700 store positions) over a stride
 
@@ -92,9 +93,13 @@ def gen(rng: Rng, tier, i):
         # the target alone in pre-existing, otherwise EMPTY parent directories (they are not the
         # save's to remove)
         tgt = dict(tgt, name=rng.pick(["solo/", "a/b/c/"]) + tgt["name"])
-    pre = rng.weighted([("absent", 3), ("file", 2), ("dir", 1)]) if nver == 1 else "absent"
+    # "symlink_obj": the target is a symbolic link to an earlier COMPLETE object elsewhere (results
+    # folder on scratch storage).  The library may refuse such a save or replace the link; what it
+    # must never do is leave a partial object loadable through the target path.
+    pre = rng.weighted([("absent", 3), ("file", 2), ("dir", 1), ("symlink_obj", 1)]) if nver == 1 \
+        else "absent"
     pre_size = rng.randrange(4)
-    if tgt["name"].endswith("/") and pre == "file":
+    if tgt["name"].endswith("/") and pre in ("file", "symlink_obj"):
         pre = "dir"   # 'name/' with a regular file called 'name' is not an existing path for the OS
     steps = []
     for v in range(nver):
@@ -168,6 +173,19 @@ def _setup_pre(E, plan, tgt_path):
             f.write("foreign dir")
         with open(os.path.join(tgt_path, "readme"), "w") as f:
             f.write("foreign")
+    elif plan["pre"] == "symlink_obj":
+        kind = _store_kind(plan)
+        real = _real_path(E, plan)
+        os.makedirs(os.path.dirname(real))
+        obj = _build_version(plan, len(plan["versions"]) - 1)
+        _, exc, _ = E.save(obj, real, mode="w", store=kind)
+        if exc is not None:
+            raise HarnessError(f"could not create the pre-existing object behind the symlink: {exc!r}")
+        os.symlink(real, tgt_path)
+
+
+def _real_path(E, plan):
+    return os.path.join(E.work, "elsewhere", "real_obj" + (".zip" if _store_kind(plan) == "zip" else ""))
 
 
 def _hardlink_snapshot(E, tgt_path, si):
@@ -192,18 +210,21 @@ def _others_hash(E, tgt_path):
     empty ones, also the target's own parents) and every file with a hash of its bytes."""
     out = {}
     tgt = os.path.abspath(tgt_path)
+    # what a symlinked target points to belongs to the target (whether a save may write through the
+    # link is not settled by the property; the destination is neither required to change nor to stay)
+    real = os.path.join(E.work, "elsewhere", "real_obj")
     for dirpath, dirnames, filenames in os.walk(E.work):
         dirnames.sort()
         keep = []
         for dn in dirnames:
-            if os.path.abspath(os.path.join(dirpath, dn)) == tgt:
+            if os.path.abspath(os.path.join(dirpath, dn)) in (tgt, real):
                 continue
             keep.append(dn)
         dirnames[:] = keep
         out["D:" + os.path.relpath(dirpath, E.work)] = ""
         for fn in sorted(filenames):
             fp = os.path.join(dirpath, fn)
-            if os.path.abspath(fp) == tgt:
+            if os.path.abspath(fp) in (tgt, real + ".zip"):
                 continue
             with open(fp, "rb") as f:
                 out["f:" + os.path.relpath(fp, E.work)] = hashlib.blake2b(
@@ -250,6 +271,17 @@ def _execute(plan, focus_fault, rec_counts=None, refs=None, keep_log=True):
             bump(out["probes"], "hardlinked_foreign_file")
         last_ok = None          # version id of the last successful save to the target
         foreign = plan["pre"] in ("file", "dir")
+        REFS = out["refs"] if recording else refs
+        symlinked = plan["pre"] == "symlink_obj"
+        if symlinked:
+            bump(out["probes"], "target_is_symlink_to_object")
+            got, lexc, _ = E.load_copy(_real_path(E, plan))   # in every pass: same event log
+            if lexc is not None:
+                raise HarnessError(f"object behind the symlink does not load: {lexc!r}")
+            if recording:
+                out["refs"]["pre"] = got
+            del got
+            last_ok = "pre"
         steps = list(plan["steps"]) + [{"op": "save", "v": len(plan["versions"]) - 1, "mode": "o",
                                         "level": 4, "path_kind": "str", "recovery": True}]
         for si, st in enumerate(steps):
@@ -332,7 +364,7 @@ def _execute(plan, focus_fault, rec_counts=None, refs=None, keep_log=True):
                         return out
                     out["refs"][v] = got
                 else:
-                    ref = refs.get(v)
+                    ref = REFS.get(v)
                     if lexc is not None or ref is None:
                         out["viol"].append(Violation(
                             "successful_save_not_loadable",
@@ -355,9 +387,13 @@ def _execute(plan, focus_fault, rec_counts=None, refs=None, keep_log=True):
                         bump(out["probes"], "hardlinked_snapshot_of_saved_object")
                 continue
             # save raised
-            if recording:
+            if recording and not symlinked:
                 out["unloadable"] = f"{tag}: fault-free save raised {exc!r}"
                 return out
+            if symlinked and os.path.islink(tgt_final):
+                bump(out["probes"], "symlinked_target_save_refused")
+                if st.get("recovery"):
+                    continue      # refusing a symlinked target is a legitimate answer
             if st.get("recovery"):
                 out["viol"].append(Violation(
                     "no_recovery_after_faults",
@@ -380,10 +416,10 @@ def _execute(plan, focus_fault, rec_counts=None, refs=None, keep_log=True):
                 foreign = False
                 continue
             # loads to something: must be a COMPLETE version (the new one, or the earlier one)
-            cands = [x for x in (v, last_ok) if x is not None and x in refs]
+            cands = [x for x in (v, last_ok) if x is not None and x in REFS]
             diffs = {}
             for c in cands:
-                d = graphs.equal(refs[c], got)
+                d = graphs.equal(REFS[c], got)
                 if not d:
                     diffs = None
                     bump(out["probes"], "complete_new_after_fault" if c == v else
